@@ -20,6 +20,8 @@
 package c14
 
 import (
+	"crypto/sha256"
+	"encoding/hex"
 	"encoding/json"
 	"fmt"
 	"os"
@@ -32,7 +34,10 @@ import (
 	"verifharness/emit"
 )
 
-const childEnv = "VERIF_C14_CHILD"
+const (
+	childEnv = "VERIF_C14_CHILD"
+	warmEnv  = "VERIF_C14_WARM" // name of the warm-up this replica runs before the compared history
+)
 
 type opInfo struct {
 	Kind string `json:"kind"`
@@ -46,6 +51,7 @@ type blockObs struct {
 	AppHash string   `json:"app_hash"`
 	Results string   `json:"results"`
 	Events  string   `json:"events"`
+	Faults  string   `json:"fault_counters"`
 	Ops     []opInfo `json:"ops"`
 	Err     string   `json:"err,omitempty"`
 }
@@ -66,7 +72,23 @@ type childOut struct {
 // Run is the harness entry point (parent), or one replica (child) when VERIF_C14_CHILD is set.
 func Run(seed int64, n int, outDir string) error {
 	if p := os.Getenv(childEnv); p != "" {
-		out, err := runHistory(seed, n)
+		opts := worldOpts{}
+		if wn := os.Getenv(warmEnv); wn != "" {
+			found := false
+			for _, wu := range warmups {
+				if wu.Name == wn {
+					found = true
+					if err := runWarmup(wu, seed); err != nil {
+						return err
+					}
+				}
+			}
+			if !found {
+				return fmt.Errorf("unknown warm-up %q", wn)
+			}
+			opts.NoDumps = true
+		}
+		out, err := runHistory(seed, n, opts)
 		if err != nil {
 			return err
 		}
@@ -90,15 +112,27 @@ func digestZ(hexDigest string) string {
 }
 
 func runParent(seed int64, n int, outDir string) error {
-	N := 3
-	if n > 150 {
-		N = 5
+	// F fresh replicas (the process does nothing before the history) and M warm replicas (the
+	// process first runs another chain, see warmups)
+	F, M := 3, 2
+	if n > 1000 {
+		F, M = 4, 3
 	}
 	if s := os.Getenv("VERIF_C14_N"); s != "" {
-		fmt.Sscan(s, &N)
+		fmt.Sscan(s, &F)
 	}
-	if N < 3 {
-		N = 3
+	if F < 3 {
+		F = 3
+	}
+	if M > len(warmups) {
+		M = len(warmups)
+	}
+	N := F + M
+	role := func(i int) string {
+		if i < F {
+			return "fresh"
+		}
+		return "after " + warmups[i-F].Name
 	}
 	exe, err := os.Executable()
 	if err != nil {
@@ -117,6 +151,9 @@ func runParent(seed int64, n int, outDir string) error {
 			p := filepath.Join(outDir, fmt.Sprintf("replica_%d.json", i))
 			cmd := exec.Command(exe, os.Args[1:]...)
 			cmd.Env = append(os.Environ(), childEnv+"="+p)
+			if i >= F {
+				cmd.Env = append(cmd.Env, warmEnv+"="+warmups[i-F].Name)
+			}
 			b, err := cmd.CombinedOutput()
 			if err != nil {
 				errs[i] = fmt.Errorf("replica %d: %v: %s", i, err, tail(string(b), 1500))
@@ -136,9 +173,11 @@ func runParent(seed int64, n int, outDir string) error {
 			return e
 		}
 	}
-	st := emit.NewStats("C14", seed, "a map-range site of consensus code counts when it was executed on >= 2 elements in >= 2 processes (distinct sites); a block counts as evaluated when all N processes produced its three digests")
+	st := emit.NewStats("C14", seed, "a map-range site of consensus code counts when it was executed on >= 2 elements in >= 2 processes (distinct sites); a block counts as evaluated when all processes (fresh ones and ones that ran a warm-up chain first) produced its four digests")
 	cf := &emit.CasesFile{Import: "Sys.C14Check", Runner: "run", Type: "c14_case"}
 	st.Extra["processes"] = N
+	st.Extra["fresh_processes"] = F
+	st.Extra["warm_processes"] = warmups[:M]
 	// blocks: compare position by position; a replica that stopped early shows as digest 0
 	maxBlocks := 0
 	for _, o := range outs {
@@ -147,18 +186,21 @@ func runParent(seed int64, n int, outDir string) error {
 		}
 	}
 	for b := 0; b < maxBlocks; b++ {
-		var ah, rs, ev []string
+		var ah, rs, ev, fc []string
 		var info map[string]any
 		for i, o := range outs {
 			if b >= len(o.Blocks) {
-				ah, rs, ev = append(ah, "0"), append(rs, "0"), append(ev, "0")
+				ah, rs, ev, fc = append(ah, "0"), append(rs, "0"), append(ev, "0"), append(fc, "0")
 				continue
 			}
 			blk := o.Blocks[b]
+			fsum := sha256.Sum256([]byte(blk.Faults))
 			ah, rs, ev = append(ah, digestZ(blk.AppHash)), append(rs, digestZ(blk.Results)), append(ev, digestZ(blk.Events))
+			fc = append(fc, digestZ(hex.EncodeToString(fsum[:])))
 			if i == 0 {
 				info = map[string]any{"kind": "block", "block_index": b, "height": blk.Height, "dt_s": blk.DtSec, "ops": blk.Ops, "err": blk.Err,
-					"replay": fmt.Sprintf("history of seed %d, n %d, up to and including this block; rerun the harness with the same seed", seed, n)}
+					"replay": map[string]any{"H": map[string]any{"seed": seed, "n": n, "upto_block_index": b},
+						"W": warmups[:M], "how": "rerun the harness with the same seed and n; replica i >= fresh_processes first runs warm-up W[i - fresh_processes] (VERIF_C14_WARM) in the same OS process"}}
 			}
 		}
 		if info == nil {
@@ -167,7 +209,8 @@ func runParent(seed int64, n int, outDir string) error {
 		per := []map[string]string{}
 		for i, o := range outs {
 			if b < len(o.Blocks) {
-				per = append(per, map[string]string{"replica": fmt.Sprint(i), "app_hash": o.Blocks[b].AppHash, "results": o.Blocks[b].Results, "events": o.Blocks[b].Events})
+				per = append(per, map[string]string{"replica": fmt.Sprint(i), "process": role(i), "app_hash": o.Blocks[b].AppHash, "results": o.Blocks[b].Results,
+					"events": o.Blocks[b].Events, "fault_counters": o.Blocks[b].Faults})
 			}
 		}
 		info["digests"] = per
@@ -175,7 +218,7 @@ func runParent(seed int64, n int, outDir string) error {
 		if b < len(outs[0].Blocks) {
 			h = outs[0].Blocks[b].Height
 		}
-		cf.Add(fmt.Sprintf("CBlock %d %s %s %s", h, emit.List(ah), emit.List(rs), emit.List(ev)))
+		cf.Add(fmt.Sprintf("CBlock %d %s %s %s %s", h, emit.List(ah), emit.List(rs), emit.List(ev), emit.List(fc)))
 		st.Info(info)
 		st.Evaluations++
 		st.Count("block")
@@ -194,7 +237,7 @@ func runParent(seed int64, n int, outDir string) error {
 	}
 	// model correspondence cases from replica 0; the other replicas must have dumped the same terms
 	for k, m := range outs[0].Models {
-		for i := 1; i < N; i++ {
+		for i := 1; i < F; i++ { // warm replicas make no dumps
 			if k >= len(outs[i].Models) || outs[i].Models[k].Term != m.Term {
 				st.Notes = append(st.Notes, fmt.Sprintf("model dump %d differs between replica 0 and %d", k, i))
 				st.Count("model-dump-differs")
